@@ -287,11 +287,11 @@ def _layout(rng, nb, nfiles=None, shuffle=True, maxfiles=4, id_base=0):
     if id_base == "mixed":
         # file numbers of five AND six digits at one level (Cell_D_99999 beside Cell_D_100000: what AMReX writes
         # from file 100000 on) - as strings they do not sort like the numbers they hold
-        ids = [99985 + v for v in rng.sample(range(0, 40), nf)]
+        ids = [99985 + v for v in rng.sample(range(0, max(40, 2 * nf)), nf)]
         if nf >= 2 and len({len(str(v)) for v in ids}) == 1:
             ids[0], ids[1] = 99999, 100000
     else:
-        ids = [id_base + v for v in rng.sample(range(0, 40), nf)]      # id_base 100000: six-digit file numbers
+        ids = [id_base + v for v in rng.sample(range(0, max(40, 2 * nf)), nf)]      # id_base 100000: six-digit file numbers
     order = list(range(nb))
     if shuffle:
         rng.shuffle(order)
@@ -786,3 +786,68 @@ def plant_long_max(m, seed=0):
         idx = tuple(rng.randrange(n) for n in m.data[lv][bi].shape[:-1]) + (f,)
         m.data[lv][bi][idx] = 6.3374381323380517e+120
     return m
+
+
+def add_fine_boxes(m, boxes_lv1, seed=0, payload=None):
+    """append a level holding the given boxes (index space of that level); data from the model's payload"""
+    rng = random.Random(seed + 91)
+    nprng = np.random.default_rng(seed + 91)
+    lv = m.nlevels
+    m.dx.append([v / 2 for v in m.dx[-1]])
+    m.grid_sizes.append([2 * g for g in m.grid_sizes[-1]])
+    m.boxes.append(list(boxes_lv1))
+    m.nlevels = lv + 1
+    pl = payload or (m.payload if m.payload in ("random", "special", "positive", "affine", "tagged", "nearconst") else "random")
+    m.data.append([np.asfortranarray(_payload(m, lv, bi, b, pl, nprng), dtype=np.float64)
+                   for bi, b in enumerate(boxes_lv1)])
+    m.layout.append(_layout(rng, len(boxes_lv1), min(2, len(boxes_lv1)), True))
+    m.steps = [m.steps[0]] * m.nlevels
+    return m
+
+
+def scale_model(kind, seed, ndims=3, names=None, nfields=3, payload="random", **kw):
+    """Inputs of the sizes real runs reach, where batch / chunk / threshold logic switches:
+    bigbox     3D, level 0 = one box of 122 x 96 x 100 cells (1.17 million: more than 2**20 cells, 8.9 MiB per
+               field - not a whole number of MiB - more than 32 MiB with 5 fields) beside a thin 6 x 96 x 100 box in
+               the SAME binary file (so one of them does not start at byte 0), level 1 = two small boxes;
+    bigbox2d   2D, level 0 = a 256 x 256 box beside a 16 x 256 one, levels 1 and 2 small: flattened at the finest
+               level the big box covers 2**20 pixels;
+    manyboxes  a level-0 tiling into 1296 (2D) / 343 (3D) one-cell boxes, 96 binary files;
+    unequal    3D, more than 128 boxes of unequal extents (1..2 cells) at level 0 and a finer level;
+    coarse64   3D, level 0 = two 64**3 boxes, level 1 = 16 / 24-cell boxes refining an interior patch of ONE of them"""
+    rng = random.Random(seed)
+    names = list(names) if names else [f"f{i}" for i in range(nfields)]
+    if kind == "bigbox":
+        m = gen_model(seed, ndims=3, nlevels=1, names=names, base=[128, 96, 100], sizes=[[122, 6], [96], [100]],
+                      payload=payload, nfiles=1, **kw)
+        big = max(m.boxes[0], key=lambda b: b.shape[0])
+        x0 = 2 * big.lo[0]
+        fine = [Box((x0 + 4, 8, 8), (x0 + 19, 23, 23)), Box((x0 + 200, 160, 150), (x0 + 215, 175, 173))]
+        return add_fine_boxes(m, fine, seed)
+    if kind == "bigbox2d":
+        m = gen_model(seed, ndims=2, nlevels=1, names=names, base=[272, 256], sizes=[[256, 16], [256]],
+                      payload=payload, nfiles=1, **kw)
+        big = max(m.boxes[0], key=lambda b: b.shape[0])
+        x0 = 2 * big.lo[0]
+        add_fine_boxes(m, [Box((x0 + 8, 8), (x0 + 39, 31)), Box((x0 + 400, 300), (x0 + 431, 347))], seed)
+        b1 = m.boxes[1][0]
+        return add_fine_boxes(m, [Box((2 * b1.lo[0] + 4, 2 * b1.lo[1] + 4), (2 * b1.lo[0] + 27, 2 * b1.lo[1] + 19))], seed + 1)
+    if kind == "manyboxes":
+        base = [36, 36] if ndims == 2 else [7, 7, 7]
+        return gen_model(seed, ndims=ndims, nlevels=1, names=names, base=base, bf=1, maxsz=1, payload=payload,
+                         nfiles=kw.pop("nfiles", 96), **kw)
+    if kind == "unequal":
+        return gen_model(seed, ndims=3, nlevels=2, names=names, base=[10, 10, 12], bf=1, maxsz=2, payload=payload,
+                         nfiles=kw.pop("nfiles", 5), **kw)
+    if kind == "coarse64":
+        m = gen_model(seed, ndims=3, nlevels=1, names=names, base=[128, 64, 64], sizes=[[64], [64], [64]],
+                      payload=payload, **kw)
+        host = m.boxes[0][seed % 2]
+        lo = [2 * v + 24 for v in host.lo]
+        fine = []
+        for i, sx in enumerate((16, 24)):
+            for j, sy in enumerate((24, 16)):
+                x = lo[0] + (0 if i == 0 else 16); y = lo[1] + (0 if j == 0 else 24)
+                fine.append(Box((x, y, lo[2]), (x + sx - 1, y + sy - 1, lo[2] + 23)))
+        return add_fine_boxes(m, fine, seed)
+    raise ValueError(kind)
